@@ -263,7 +263,8 @@ class _AbstractNativeDataType(KeyDataType):
 
     def __call__(self, item):
         try:
-            self._check_native(self._as_packable(item))
+            packable = self._as_packable(item)
+            self._check_native(packable)
         except (struct.error, TypeError, ValueError):
             # PyPy can raise ValueError converting a negative number to a
             # unsigned value.
@@ -271,7 +272,9 @@ class _AbstractNativeDataType(KeyDataType):
                 raise TypeError("Value out of range", item)
             raise TypeError(self._error_description)
 
-        return self._as_python_type(item)
+        # Convert the value that was range-checked, not the original
+        # item: ``int(item)`` may differ from ``operator.index(item)``.
+        return self._as_python_type(packable)
 
     def apply_weight(self, item, weight):
         return item * weight
